@@ -700,6 +700,26 @@ func (s *Server) handleRequest(req *dhcpv4.DHCPv4) (*dhcpv4.DHCPv4, error) {
 	s.leases[mac.String()] = lease
 	s.leasesMu.Unlock()
 
+	// The client's circuit-ID changed (moved to another port, relay reconfigured):
+	// drop the index and fast path entries of the old circuit-ID, nothing else
+	// would ever remove them
+	if !isNewSession && len(existingLease.CircuitID) > 0 &&
+		string(existingLease.CircuitID) != string(lease.CircuitID) {
+		oldKey := hex.EncodeToString(existingLease.CircuitID)
+		s.leasesByCircuitIDMu.Lock()
+		stale := s.leasesByCircuitID[oldKey] == existingLease
+		if stale {
+			delete(s.leasesByCircuitID, oldKey)
+		}
+		s.leasesByCircuitIDMu.Unlock()
+		if stale && s.loader != nil {
+			s.loader.RemoveCircuitIDMapping(existingLease.CircuitID)
+			if s.loader.HasCircuitIDSubscriberSupport() {
+				s.loader.RemoveCircuitIDSubscriber(existingLease.CircuitID)
+			}
+		}
+	}
+
 	// Maintain circuit-ID secondary index for relay-aware lookup
 	if len(lease.CircuitID) > 0 {
 		cidKey := hex.EncodeToString(lease.CircuitID)
